@@ -24,6 +24,38 @@ def consts(path: Path) -> dict[str, object]:
     return out
 
 
+FB, FE = "<!-- FINDINGS:BEGIN -->", "<!-- FINDINGS:END -->"
+
+
+def findings_block(text: str, known: list[dict[str, object]]) -> str:
+    """List every entry of known_findings.jsonl (open first, then fixed grouped by commit)."""
+    import subprocess
+
+    lines = [FB, "", "**Open (printed as `KNOWN-FINDING:` lines, exit 0; any other key of the same property is still a VIOLATION):**", ""]
+    opens: dict[tuple[str, str], list[str]] = {}
+    for k in known:
+        if k.get("status") == "open":
+            what = str(k["what"])
+            opens.setdefault((str(k["property"]), what.split(" [")[0][:600]), []).append(str(k["key"]))
+    for (pid, what), keys in sorted(opens.items()):
+        lines.append(f"* **{pid}** — keys `{'`, `'.join(keys)}`: {what}")
+    lines += ["", "**Fixed in /repo (one `fix:` commit each; the entry suppresses nothing — the check must stay quiet on the repaired tree):**", "",
+              "| property | commit | commit subject | failing keys (what failed: see known_findings.jsonl) |", "|---|---|---|---|"]
+    fixed: dict[tuple[str, str], list[str]] = {}
+    for k in known:
+        if k.get("status") == "fixed":
+            fixed.setdefault((str(k["property"]), str(k.get("commit", ""))[:7]), []).append(str(k["key"]))
+    for (pid, c), keys in sorted(fixed.items()):
+        subj = subprocess.run(["git", "-C", "/repo", "log", "-1", "--format=%s", c], capture_output=True, text=True).stdout.strip()
+        ks = ", ".join(f"`{x}`" for x in keys[:4]) + (f" … (+{len(keys) - 4})" if len(keys) > 4 else "")
+        lines.append(f"| {pid} | {c} | {subj} | {ks} |")
+    lines += ["", FE]
+    block = "\n".join(lines)
+    if FB in text:
+        return re.sub(re.escape(FB) + r".*?" + re.escape(FE), lambda _m: block, text, flags=re.S)
+    return text
+
+
 def main() -> None:
     props = [json.loads(x) for x in (ROOT / "properties.jsonl").read_text().splitlines() if x.strip()]
     accepted = set((ROOT / "tools" / "accepted.txt").read_text().split())
@@ -82,6 +114,7 @@ def main() -> None:
     block += "\n\n### 6.4 What each check does (auto-generated from the check modules)\n\n" + "\n".join(doc_rows) + "\n" + "<!-- CHECK-DOCS:END -->"
     d = ROOT / "DESIGN.md"
     text = d.read_text()
+    text = findings_block(text, known)
     if BEGIN in text:
         text = re.sub(re.escape(BEGIN) + r".*?" + re.escape(END) + r"(.*?<!-- CHECK-DOCS:END -->)?", lambda _m: block, text, flags=re.S)
     else:
